@@ -259,7 +259,7 @@ class C16(Prop):
     REQUIRED_CLASSES = ["conformance_success", "conformance_failure", "robustness", "escape_in_path", "fail_at_op>=2", "root_replaced", "deep_document"]
 
     def budget(self, tier):
-        return {"workers": 14, "examples": 800 if tier == "quick" else 20000}
+        return {"workers": 14, "examples": 1400 if tier == "quick" else 20000}
 
     def fuzz_plan(self, tier):
         quick = tier == "quick"
